@@ -934,6 +934,30 @@ class Ghost18:
     pass
 
 
+FOREST_PRE = ["has-a-root", "ids-pairwise-distinct-and-never-the-marker", "every-parent-id-names-a-row", "no-cycle(dp18-is-the-depth)",
+              "comp18-is-the-row-of-the-root"]
+
+
+def forest_pre(E, df, which):
+    """the domain of the root repair `nearest` as formulas over a frame's (id, pid) columns"""
+    T = Table18(E, df)
+    sel = z3.Select
+    a, b = z3.Int("a18"), z3.Int("b18")
+    pa = sel(T.PID, a)
+    if which == "has-a-root":
+        return z3.Exists([a], z3.And(T.R(a), pa == -1))
+    if which == "ids-pairwise-distinct-and-never-the-marker":
+        return z3.And(z3.ForAll([a, b], z3.Implies(z3.And(0 <= a, a < b, b < T.n), sel(T.ID, a) != sel(T.ID, b))),
+                      z3.ForAll([a], z3.Implies(T.R(a), sel(T.ID, a) != -1)))
+    if which == "every-parent-id-names-a-row":
+        return T.parents_exist()
+    if which == "no-cycle(dp18-is-the-depth)":
+        return z3.ForAll([a], z3.Implies(T.R(a), z3.And(dp18(a) >= 0, z3.If(pa == -1, dp18(a) == 0, dp18(a) == dp18(T.e(a)) + 1))))
+    if which == "comp18-is-the-row-of-the-root":
+        return z3.ForAll([a], z3.Implies(T.R(a), z3.And(T.R(comp18(a)), sel(T.PID, comp18(a)) == -1, comp18(a) == z3.If(pa == -1, a, comp18(T.e(a))))))
+    raise KeyError(which)
+
+
 def register_link_roots(R):
     from pyvc.ext_C18 import DFrame as XFrame, InfMasked18, RowIter18
     from pyvc.values import Obj
@@ -959,28 +983,7 @@ def register_link_roots(R):
         return dict(df=df, names=None, G=ghost_state(zint(df.n)))
 
     # ------------------------------------------------------------ preconditions
-    def pre(which):
-        def f(E, v, o):
-            T = Table18(E, v["df"])
-            a, b = z3.Int("a18"), z3.Int("b18")
-            pa = sel(T.PID, a)
-            if which == "has-a-root":
-                return z3.Exists([a], z3.And(T.R(a), pa == -1))
-            if which == "ids-pairwise-distinct-and-never-the-marker":
-                return z3.And(z3.ForAll([a, b], z3.Implies(z3.And(0 <= a, a < b, b < T.n), sel(T.ID, a) != sel(T.ID, b))),
-                              z3.ForAll([a], z3.Implies(T.R(a), sel(T.ID, a) != -1)))
-            if which == "every-parent-id-names-a-row":
-                return T.parents_exist()
-            if which == "no-cycle(dp18-is-the-depth)":
-                return z3.ForAll([a], z3.Implies(T.R(a), z3.And(dp18(a) >= 0, z3.If(pa == -1, dp18(a) == 0, dp18(a) == dp18(T.e(a)) + 1))))
-            if which == "comp18-is-the-row-of-the-root":
-                return z3.ForAll([a], z3.Implies(T.R(a), z3.And(T.R(comp18(a)), sel(T.PID, comp18(a)) == -1, comp18(a) == z3.If(pa == -1, a, comp18(T.e(a))))))
-            raise KeyError(which)
-
-        return (which, f)
-
-    PRE = [pre(nm) for nm in ("has-a-root", "ids-pairwise-distinct-and-never-the-marker", "every-parent-id-names-a-row", "no-cycle(dp18-is-the-depth)",
-                              "comp18-is-the-row-of-the-root")]
+    PRE = [(nm, (lambda w: lambda E, v, o: forest_pre(E, v["df"], w))(nm)) for nm in FOREST_PRE]
 
     # ------------------------------------------------------------ loop invariant
     def by_type(v, cls, what):
